@@ -35,7 +35,8 @@ def modifyLast (g : J → J) : List J → List J
 
 /-- One turn of the loop of dataobjects.py:544-551 over `map_content(data.content)` (cdata_prefix is `''`, so
     a cdata part `i` arrives under the name `str(i)`, converters/base.py:260-262).  State: the element's
-    `value` and its children so far; `none` = the `assert` of `DataElement.insert` failed. -/
+    `value` and its children so far; a child value that is not a DataElement is left out
+    (since fix 796bccf; `none` is no longer produced by a step, the type is kept for the lemmas). -/
 def decStep (m : Mapper) (st : J × List J) : Item J → Option (J × List J)
   | .cdata _ v =>
       match st.2 with
@@ -49,7 +50,7 @@ def decStep (m : Mapper) (st : J × List J) : Item J → Option (J × List J)
       else
         match v with
         | .elem .. => some (st.1, st.2 ++ [v])
-        | _ => none
+        | _ => some st      -- a depth filler (not a DataElement) is left out (dataobjects.py:546-549, fix 796bccf)
 
 def decLoop (m : Mapper) : J × List J → List (Item J) → Option (J × List J)
   | st, [] => some st
